@@ -58,6 +58,11 @@ pub fn gen(tier: &str, seed: u64) -> Vec<String> {
         ("(defsrc a b)\n(deflayer l0 (switch () (tap-hold 0 20 x y) fallthrough () (tap-hold 0 60 z w) break) b)\n", vec![1, 19, 20, 21, 30, 59, 60, 61, 200]),
         ("(defsrc a b)\n(deflayer l0 (switch ((key-timing 1 lt 100)) x break () y break) a)\n", vec![1, 50, 99, 100, 101, 300]),
         ("(defsrc a b c)\n(deflayer l0 (tap-hold 0 50 x y) (tap-hold 0 80 z w) c)\n", vec![1, 10, 49, 50, 79, 80, 81, 200]),
+        // key-timing tests on the SECOND key: the age of the first key's press is read when the second is
+        // pressed, so the loop must not stop counting before the largest threshold (lt and gt alike)
+        ("(defsrc a b)\n(deflayer l0 a (switch ((key-timing 1 lt 100)) x break () y break))\n", vec![1, 50, 98, 99, 100, 101, 102, 300]),
+        ("(defsrc a b)\n(deflayer l0 a (switch ((key-timing 1 gt 100)) x break () y break))\n", vec![1, 50, 98, 99, 100, 101, 102, 300]),
+        ("(defsrc a b)\n(deflayer l0 a (switch ((key-timing 1 gt 200)) x break ((key-timing 1 lt 50)) z break () y break))\n", vec![1, 48, 49, 50, 51, 198, 199, 200, 201, 202, 600]),
     ];
     for (cfg, gaps) in &crafted {
         let ks: Vec<u16> = if cfg.contains("a b c") { vec![code("a"), code("b"), code("c")] } else { vec![code("a"), code("b")] };
